@@ -27,7 +27,13 @@ const (
 	fRetCanceled
 	fPark        // park until ctx done, return ctx.Err()
 	fRetDeadline // return context.DeadlineExceeded: an error other than context.Canceled, like E1/E2
+	fRetList     // return an error whose dynamic type is not comparable (a slice of messages)
 )
+
+// listErr is an error value of a non-comparable type: comparing two of them with == panics.
+type listErr []string
+
+func (l listErr) Error() string { return "several errors" }
 
 var (
 	errE1 = errors.New("E1")
@@ -44,6 +50,8 @@ func outcomeErr(o int) error {
 		return context.Canceled
 	case fRetDeadline:
 		return context.DeadlineExceeded
+	case fRetList:
+		return listErr{"first", "second"}
 	}
 	return nil
 }
@@ -99,7 +107,7 @@ func ccallBody(n int, withCancel bool, outcomes int) func() {
 			park, hard := false, false
 			for _, o := range outs {
 				park = park || o == fPark
-				hard = hard || o == fRetE1 || o == fRetE2 || o == fRetDeadline
+				hard = hard || o == fRetE1 || o == fRetE2 || o == fRetDeadline || o == fRetList
 			}
 			if park && !hard {
 				return
@@ -126,7 +134,7 @@ func ccallBody(n int, withCancel bool, outcomes int) func() {
 		}
 		vsched.Observe(oRet, code, b2i(cancelled), 0)
 		// state at return time
-		allReturned, anyNonCanceled, sawE1, sawE2, sawDL := true, false, false, false, false
+		allReturned, anyNonCanceled, sawE1, sawE2, sawDL, sawList := true, false, false, false, false, false
 		for i := range fns {
 			if outs[i] == fNilFn {
 				continue
@@ -143,6 +151,8 @@ func ccallBody(n int, withCancel bool, outcomes int) func() {
 				sawE2, anyNonCanceled = true, true
 			case fRetDeadline:
 				sawDL, anyNonCanceled = true, true
+			case fRetList:
+				sawList, anyNonCanceled = true, true
 			}
 		}
 		allNil := allReturned
@@ -151,7 +161,12 @@ func ccallBody(n int, withCancel bool, outcomes int) func() {
 				allNil = false
 			}
 		}
+		_, isList := r.(listErr)
 		switch {
+		case isList:
+			if !sawList {
+				fail("C17.wrong-error", "returned the list error which no function had returned (outcomes %v)", outs)
+			}
 		case r == nil:
 			if !allNil {
 				fail("C17.nil-result", "CallConcurrently returned nil although not every function had returned nil (outcomes %v, all returned=%v)", outs, allReturned)
@@ -284,20 +299,20 @@ func init() {
 	})
 	eng.Register(&eng.Scenario{
 		Name: "ccall-2", Props: []string{"C17"}, MustFinish: true, ObsNames: stdObs,
-		Doc:   "CallConcurrently with 2 functions, every outcome pair over {nil entry, nil, E1, E2, Canceled, park-until-cancelled, DeadlineExceeded}, live caller context",
+		Doc:   "CallConcurrently with 2 functions, every outcome pair over {nil entry, nil, E1, E2, Canceled, park-until-cancelled, DeadlineExceeded, an error of a non-comparable type}, live caller context",
 		Quick: eng.Bounds{PB: 2}, Thorough: eng.Bounds{PB: 4},
-		Body: ccallBody(2, false, 7),
+		Body: ccallBody(2, false, 8),
 	})
 	eng.Register(&eng.Scenario{
 		Name: "ccall-2c", Props: []string{"C17"}, MustFinish: true, ObsNames: stdObs,
 		Doc:   "CallConcurrently with 2 functions and a caller-cancel thread",
 		Quick: eng.Bounds{PB: 2}, Thorough: eng.Bounds{PB: 3},
-		Body: ccallBody(2, true, 7),
+		Body: ccallBody(2, true, 8),
 	})
 	eng.Register(&eng.Scenario{
 		Name: "ccall-3", Props: []string{"C17"}, MustFinish: true, ObsNames: stdObs,
 		Doc:   "CallConcurrently with 3 functions, every outcome triple, live caller context",
 		Quick: eng.Bounds{PB: 1}, Thorough: eng.Bounds{PB: 2},
-		Body: ccallBody(3, false, 7),
+		Body: ccallBody(3, false, 8),
 	})
 }
